@@ -604,6 +604,10 @@ func (s *scope) interpretExpression(expr *Expression) pyObject {
 	// Check the optimised sites first
 	if expr.optimised != nil {
 		if expr.optimised.Constant != nil {
+			if l, ok := expr.optimised.Constant.(pyList); ok {
+				// Lists are mutable, so every evaluation of a list literal must yield its own list.
+				return copyConstantList(l)
+			}
 			return expr.optimised.Constant
 		} else if expr.optimised.Local != "" {
 			return s.Lookup(expr.optimised.Local)
@@ -1075,6 +1079,20 @@ func (s *scope) Constant(expr *Expression) pyObject {
 	//      we might also be able to do a more aggressive pass in cases where we know we're passing a constant
 	//      to a builtin that won't modify it (e.g. calling build_rule with a constant dict).
 	return nil
+}
+
+// copyConstantList returns a copy of a list that was folded into a constant (see Constant),
+// including any constant lists nested in it.
+func copyConstantList(l pyList) pyList {
+	ret := make(pyList, len(l))
+	for i, v := range l {
+		if l2, ok := v.(pyList); ok {
+			ret[i] = copyConstantList(l2)
+		} else {
+			ret[i] = v
+		}
+	}
+	return ret
 }
 
 // pkgFilename returns the filename of the current package, or the empty string if there is none.
